@@ -165,10 +165,12 @@ pub fn explore(sc: &Scenario) -> (Vec<String>, Stats) {
         let done = with(|e| {
             // decisions beyond pos were not consumed on this path (cannot happen: trail grows only at pos)
             e.trail.truncate(e.pos);
+            let first = e.first_answer;
             while let Some(&last) = e.trail.last() {
-                if last {
+                // (with `explore_near` a decision is flipped only while the path's deviation budget allows it)
+                if last == first && e.trail.iter().filter(|b| **b != first).count() < e.max_dev {
                     let n = e.trail.len();
-                    e.trail[n - 1] = false;
+                    e.trail[n - 1] = !first;
                     return false;
                 }
                 e.trail.pop();
